@@ -746,6 +746,33 @@ static int unknowns_per_system(const cs_vna *v)
     }
 }
 
+/* S of a standard with parameter `which' displaced by dv (long double) */
+static void std_S_l(const cs_scenario *sc, const cs_std *st, int findex,
+	int which, lc_t dv, lc_t *S)
+{
+    const cs_vna *v = &sc->vna;
+    const int P = v->P;
+    bool used[CS_MAXP] = { false };
+
+    for (int i = 0; i < P * P; ++i)
+	S[i] = 0.0L;
+    for (int i = 0; i < st->np; ++i)
+	used[st->port[i] - 1] = true;
+    for (int i = 0; i < st->np; ++i)
+	for (int j = 0; j < st->np; ++j) {
+	    int cell = i * st->np + j;
+	    lc_t val = st->sp[cell] >= 0 ?
+		(lc_t)cs_param_value(v, &sc->param[st->sp[cell]],
+			v->f[findex]) : (lc_t)st->sv[cell];
+	    if (st->sp[cell] >= 0 && st->sp[cell] == which)
+		val += dv;
+	    S[(st->port[i] - 1) * P + (st->port[j] - 1)] = val;
+	}
+    for (int p = 0; p < P; ++p)
+	if (!used[p])
+	    S[p * P + p] = v->gamma_unused[p];
+}
+
 int cs_identifiable(const cs_scenario *sc, unsigned mask,
 	long double *margin, int *equations, int *unknowns)
 {
@@ -755,70 +782,98 @@ int cs_identifiable(const cs_scenario *sc, unsigned mask,
     const bool full = is_16(v->type);
     const bool leak = has_leak(v->type) && !full;
     int result = 1;
-    long double worst_margin = 1.0L;
     int min_eq = 1 << 30;
+    par_t par[CS_MAXP][4 * NS];
+    int np[CS_MAXP], coloff[CS_MAXP];
+    int ncols = 0, need = 0;
+    int upar[CS_MAXPARAM], nu = 0;
+    lc_t El[CS_MAXP * NS], Er[CS_MAXP * NS], Et[CS_MAXP * NS],
+	 Em[CS_MAXP * NS];
 
     *unknowns = unknowns_per_system(v);
     for (int sys = 0; sys < v->nsys; ++sys) {
-	par_t par[4 * NS];
-	int np = list_params(v, sys, par);
-	/* rows: usable cells of every standard in the mask */
-	int maxrows = CS_MAXSTD * NS;
-	lc_t *J = calloc((size_t)maxrows * (size_t)np, sizeof(lc_t));
-	int nrows = 0, eqs = 0;
-	bool leak_seen[NS] = { false };
-	lc_t El[CS_MAXP * NS], Er[CS_MAXP * NS], Et[CS_MAXP * NS],
-	     Em[CS_MAXP * NS];
-
-	nets_to_l(v, v->net[0], El, Er, Et, Em);
-	for (int k = 0; k < sc->nstd; ++k) {
-	    const cs_std *st = &sc->std[k];
-	    bool conn[NS], inset[CS_MAXP] = { false };
-	    bool rgiven[CS_MAXP], cgiven[CS_MAXP];
-	    cs_c Sd[NS];
-	    lc_t S[NS];
-	    int usable[NS], nus = 0;
-
-	    if (!(mask & (1u << k)))
+	np[sys] = list_params(v, sys, par[sys]);
+	coloff[sys] = ncols;
+	ncols += np[sys];
+	need += np[sys] - 1;		/* one gauge freedom per system */
+    }
+    /* unknown standard parameters used by the selected standards.  A
+       correlated parameter is an unknown too; its tie to `other' is a
+       prior, not a measurement, and is not counted here. */
+    for (int k = 0; k < sc->nstd; ++k) {
+	if (!(mask & (1u << k)))
+	    continue;
+	for (int c = 0; c < sc->std[k].np * sc->std[k].np; ++c) {
+	    int q = sc->std[k].sp[c];
+	    if (q < 0) continue;
+	    if (sc->param[q].kind != CSP_UNKNOWN &&
+		    sc->param[q].kind != CSP_CORRELATED)
 		continue;
-	    std_connect(sc, st, conn);
-	    for (int i = 0; i < st->np; ++i)
-		inset[st->port[i] - 1] = true;
-	    for (int r = 0; r < v->rows; ++r)
-		rgiven[r] = !st->abbrev_rows || inset[r];
-	    for (int c = 0; c < v->cols; ++c)
-		cgiven[c] = !st->abbrev_cols || inset[c];
-	    cs_std_S(sc, st, 0, Sd);
-	    for (int i = 0; i < P * P; ++i)
-		S[i] = Sd[i];
-	    for (int r = 0; r < v->rows; ++r)
-		for (int c = 0; c < v->cols; ++c) {
-		    if (col && c != sys) continue;
-		    if (!rgiven[r] || !cgiven[c]) continue;
-		    if (full) {
-			/* all cells usable if the standard is complete */
-			if (st->np == P) {
-			    usable[nus++] = r * v->cols + c;
-			    ++eqs;
-			}
-			continue;
-		    }
-		    if (inset[r] && inset[c] && conn[r * P + c]) {
+	    bool seen = false;
+	    for (int i = 0; i < nu; ++i)
+		if (upar[i] == q) seen = true;
+	    if (!seen)
+		upar[nu++] = q;
+	}
+    }
+    int ucol = ncols;
+    ncols += nu;
+    need += nu;
+    *unknowns += nu;
+
+    int maxrows = CS_MAXSTD * NS;
+    lc_t *J = calloc((size_t)maxrows * (size_t)ncols, sizeof(lc_t));
+    int nrows = 0;
+    int eqs_sys[CS_MAXP] = { 0 };
+    bool leak_seen[NS] = { false };
+
+    nets_to_l(v, v->net[0], El, Er, Et, Em);
+    for (int k = 0; k < sc->nstd; ++k) {
+	const cs_std *st = &sc->std[k];
+	bool conn[NS], inset[CS_MAXP] = { false };
+	bool rgiven[CS_MAXP], cgiven[CS_MAXP];
+	lc_t S[NS];
+	int usable[NS], nus = 0;
+
+	if (!(mask & (1u << k)))
+	    continue;
+	std_connect(sc, st, conn);
+	for (int i = 0; i < st->np; ++i)
+	    inset[st->port[i] - 1] = true;
+	for (int r = 0; r < v->rows; ++r)
+	    rgiven[r] = !st->abbrev_rows || inset[r];
+	for (int c = 0; c < v->cols; ++c)
+	    cgiven[c] = !st->abbrev_cols || inset[c];
+	std_S_l(sc, st, 0, -1, 0, S);
+	for (int r = 0; r < v->rows; ++r)
+	    for (int c = 0; c < v->cols; ++c) {
+		int sys = col ? c : 0;
+		if (!rgiven[r] || !cgiven[c]) continue;
+		if (full) {
+		    /* all cells usable if the standard is complete */
+		    if (st->np == P) {
 			usable[nus++] = r * v->cols + c;
-			++eqs;
-		    } else if (r != c && !conn[r * P + c] && leak) {
-			usable[nus++] = r * v->cols + c;
-			leak_seen[r * v->cols + c] = true;
+			++eqs_sys[sys];
 		    }
+		    continue;
 		}
-	    /* derivative of usable cells wrt every parameter */
-	    for (int j = 0; j < np; ++j) {
-		lc_t *arr = par[j].which == 0 ? El : par[j].which == 1 ? Er :
-		    par[j].which == 2 ? Et : Em;
-		int off = (v->nsys > 1 ? sys : 0) * NS + par[j].i * P +
-		    par[j].j;
+		if (inset[r] && inset[c] && conn[r * P + c]) {
+		    usable[nus++] = r * v->cols + c;
+		    ++eqs_sys[sys];
+		} else if (r != c && !conn[r * P + c] && leak) {
+		    usable[nus++] = r * v->cols + c;
+		    leak_seen[r * v->cols + c] = true;
+		}
+	    }
+	const long double h = 1e-9L;
+	/* derivatives wrt error-network parameters */
+	for (int sys = 0; sys < v->nsys; ++sys) {
+	    for (int j = 0; j < np[sys]; ++j) {
+		const par_t *pp = &par[sys][j];
+		lc_t *arr = pp->which == 0 ? El : pp->which == 1 ? Er :
+		    pp->which == 2 ? Et : Em;
+		int off = (v->nsys > 1 ? sys : 0) * NS + pp->i * P + pp->j;
 		lc_t save = arr[off], Mp[NS], Mm[NS];
-		const long double h = 1e-9L;
 		arr[off] = save + h;
 		int e1 = measure_l(P, v->rows, v->cols, v->nsys, El, Er, Et,
 			Em, NS, S, Mp);
@@ -827,47 +882,69 @@ int cs_identifiable(const cs_scenario *sc, unsigned mask,
 			Em, NS, S, Mm);
 		arr[off] = save;
 		for (int u = 0; u < nus; ++u) {
+		    int c = usable[u] % v->cols;
+		    if (col && c != sys)
+			continue;	/* other system's network */
 		    lc_t d = (e1 || e2) ? 0 :
 			(Mp[usable[u]] - Mm[usable[u]]) / (2 * h);
-		    J[(size_t)(nrows + u) * (size_t)np + (size_t)j] = d;
+		    J[(size_t)(nrows + u) * (size_t)ncols +
+			(size_t)(coloff[sys] + j)] = d;
 		}
 	    }
-	    nrows += nus;
 	}
-	if (eqs < min_eq)
-	    min_eq = eqs;
-	/* every leakage term must be observed on a no-path measurement:
-	   that is how libvna determines them (vnacal_new(3)) */
-	if (leak) {
-	    for (int r = 0; r < v->rows; ++r)
-		for (int c = 0; c < v->cols; ++c) {
-		    if (col && c != sys) continue;
-		    if (r != c && !leak_seen[r * v->cols + c])
-			result = 0;
-		}
+	/* derivatives wrt unknown standard parameters */
+	for (int q = 0; q < nu; ++q) {
+	    lc_t Sp[NS], Sm[NS], Mp[NS], Mm[NS];
+	    bool uses = false;
+	    for (int c = 0; c < st->np * st->np; ++c)
+		if (st->sp[c] == upar[q]) uses = true;
+	    if (!uses)
+		continue;
+	    std_S_l(sc, st, 0, upar[q], h, Sp);
+	    std_S_l(sc, st, 0, upar[q], -h, Sm);
+	    int e1 = measure_l(P, v->rows, v->cols, v->nsys, El, Er, Et, Em,
+		    NS, Sp, Mp);
+	    int e2 = measure_l(P, v->rows, v->cols, v->nsys, El, Er, Et, Em,
+		    NS, Sm, Mm);
+	    for (int u = 0; u < nus; ++u) {
+		lc_t d = (e1 || e2) ? 0 :
+		    (Mp[usable[u]] - Mm[usable[u]]) / (2 * h);
+		J[(size_t)(nrows + u) * (size_t)ncols + (size_t)(ucol + q)] =
+		    d;
+	    }
 	}
-	long double piv[4 * NS];
-	int cnt = nrows > 0 ? lin_pivots(nrows, np, J, piv) : 0;
-	int need = np - 1;	/* one gauge freedom per system */
-	if (vf_verbose) {
-	    vf_note("identifiable: sys %d params %d rows %d eqs %d pivots %d "
-		    "first %.3Le need-th %.3Le last %.3Le leak-ok %d", sys, np,
-		    nrows, eqs, cnt, cnt ? piv[0] : 0.0L,
-		    cnt >= need && need > 0 ? piv[need - 1] : 0.0L,
-		    cnt ? piv[cnt - 1] : 0.0L, result);
-	}
-	if (cnt < need || piv[need - 1] < 1e-7L * piv[0]) {
-	    result = 0;
-	    worst_margin = 0;
-	} else {
-	    long double m = piv[need - 1] / piv[0];
-	    if (m < worst_margin)
-		worst_margin = m;
-	}
-	free(J);
+	nrows += nus;
     }
+    for (int sys = 0; sys < v->nsys; ++sys)
+	if (eqs_sys[sys] < min_eq)
+	    min_eq = eqs_sys[sys];
+    /* every leakage term must be observed on a no-path measurement:
+       that is how libvna determines them (vnacal_new(3)) */
+    if (leak) {
+	for (int r = 0; r < v->rows; ++r)
+	    for (int c = 0; c < v->cols; ++c)
+		if (r != c && !leak_seen[r * v->cols + c])
+		    result = 0;
+    }
+    long double *piv = calloc((size_t)ncols + 1, sizeof(long double));
+    int cnt = nrows > 0 ? lin_pivots(nrows, ncols, J, piv) : 0;
+    long double m = 0;
+    if (cnt < need || piv[need - 1] < 1e-7L * piv[0]) {
+	result = 0;
+    } else {
+	m = piv[need - 1] / piv[0];
+    }
+    if (vf_verbose) {
+	vf_note("identifiable: params %d (+%d unknown standard parameters) "
+		"rows %d min-eqs %d pivots %d first %.3Le need-th(%d) %.3Le "
+		"leak-ok %d", ncols - nu, nu, nrows, min_eq, cnt,
+		cnt ? piv[0] : 0.0L, need,
+		cnt >= need && need > 0 ? piv[need - 1] : 0.0L, result);
+    }
+    free(piv);
+    free(J);
     *equations = min_eq;
-    *margin = worst_margin;
+    *margin = m;
     return result;
 }
 
